@@ -51,6 +51,7 @@ struct push0_pipe {
 	nni_pipe     *pipe;
 	push0_sock   *push;
 	nni_list_node node;
+	bool          closed;
 
 	nni_aio aio_recv;
 	nni_aio aio_send;
@@ -123,8 +124,9 @@ push0_pipe_init(void *arg, nni_pipe *pipe, void *s)
 	nni_aio_init(&p->aio_recv, push0_recv_cb, p);
 	nni_aio_init(&p->aio_send, push0_send_cb, p);
 	NNI_LIST_NODE_INIT(&p->node);
-	p->pipe = pipe;
-	p->push = s;
+	p->pipe   = pipe;
+	p->push   = s;
+	p->closed = false;
 	return (0);
 }
 
@@ -158,6 +160,7 @@ push0_pipe_close(void *arg)
 	nni_aio_close(&p->aio_send);
 
 	nni_mtx_lock(&s->m);
+	p->closed = true;
 	if (nni_list_node_active(&p->node)) {
 		nni_list_node_remove(&p->node);
 
@@ -194,6 +197,14 @@ push0_pipe_ready(push0_pipe *p)
 	bool        blocked;
 
 	nni_mtx_lock(&s->m);
+
+	// A send that completed just before the pipe closed lands here
+	// after push0_pipe_close; a closed pipe must not take messages
+	// or get back on the ready list (it is about to be freed).
+	if (p->closed) {
+		nni_mtx_unlock(&s->m);
+		return;
+	}
 
 	blocked = nni_lmq_full(&s->wq) && nni_list_empty(&s->pl);
 
